@@ -224,6 +224,38 @@ class SuperProxy(Model):
         raise Unsupported(f"super().{name} reaches a base class the evaluated code does not define")
 
 
+def apply_descriptor(v, obj, owner):
+    """The descriptor protocol for a class attribute read through an instance: an object of the evaluated code whose class defines
+    `__get__` answers for itself."""
+    if isinstance(v, UserInstance):
+        g = v._uc_special("__get__")
+        if g is not None:
+            return g.clo(v, obj, owner)
+    return v
+
+
+def call_set_name(ns, owner):
+    """`__set_name__(owner, name)` of every descriptor object stored in a class body, once, when the class is created."""
+    for name, v in list(ns.items()):
+        if isinstance(v, UserInstance):
+            m = v._uc_special("__set_name__")
+            if m is not None:
+                m.clo(v, owner, name)
+
+
+class _UserIterator:
+    """Python-side iterator over an iterator object of the evaluated code."""
+
+    def __init__(self, inst):
+        self._inst = inst
+
+    def __iter__(self):
+        return self
+
+    def __next__(self):
+        return self._inst.__next__()
+
+
 class UserInstance(Model):
     _allow_private = True
     _serial = 0
@@ -252,7 +284,7 @@ class UserInstance(Model):
                 return lambda *a, **k: v.clo(self, *a, **k)
             if isinstance(v, FieldSpec):
                 raise AttributeError(name)
-            return v
+            return apply_descriptor(v, self, cls)
         if cls._uc_kind == "namedtuple":
             if name == "_replace":
                 return lambda **kw: cls(**{**{f[0]: d[f[0]] for f in cls._uc_fields if _field_in_init(f[1])}, **kw})
@@ -299,10 +331,26 @@ class UserInstance(Model):
     def __iter__(self):
         m = self._uc_special("__iter__")
         if m is not None:
-            return iter(m.clo(self))
+            r = m.clo(self)
+            if isinstance(r, UserInstance) and r._uc_special("__next__") is not None:
+                return _UserIterator(r)  # an iterator class of the evaluated code (`__iter__` returns self, `__next__` ends with StopIteration)
+            return iter(r)
         if self._uc_class._uc_kind == "namedtuple":
             return iter(self._uc_tuple())
         raise TypeError(f"'{self._uc_class._uc_name}' object is not iterable")
+
+    def __next__(self):
+        m = self._uc_special("__next__")
+        if m is None:
+            raise TypeError(f"'{self._uc_class._uc_name}' object is not an iterator")
+        try:
+            return m.clo(self)
+        except ModelRaise as e:
+            from .minieval import exception_matches
+
+            if exception_matches(e.raised_as, "StopIteration"):
+                raise StopIteration(getattr(e, "value", None))
+            raise
 
     def __len__(self):
         m = self._uc_special("__len__")
@@ -547,6 +595,7 @@ def build_class(cdef, interp):
         raise Unsupported(f"attribute hooks / __new__ in class {cdef.name}")
     cls = UserClass(cdef.name, bases, ns, kind=kind, fields=fields, dc_opts=dc_opts)
     _set_defining_class(ns, cls)
+    call_set_name(ns, cls)
     # the class has been created: its bases are told (registration hooks: `class _And(_Encoding, types=("and",))`)
     hook = _MISSING
     for b_ in cls._uc_mro()[1:]:
